@@ -29,12 +29,20 @@ def main():
     import c17
     case = json.loads(sys.argv[1])
     repo = os.environ.get("VERIF_REPO", "/repo")
-    cfg = {c[0]: c for c in c17.CONFIGS}[case["family"]]
-    base = {"family": cfg[1], "params": case.get("params", cfg[2]), "seed": case["seed"], "ngen": case["ngen"]}
+    if "family_key" in case:
+        base = {"family": case["family_key"], "params": case.get("params", {}), "seed": case["seed"], "ngen": case["ngen"]}
+    else:
+        cfg = {c[0]: c for c in c17.CONFIGS}[case["family"]]
+        base = {"family": cfg[1], "params": case.get("params", cfg[2]), "seed": case["seed"], "ngen": case["ngen"]}
     ref = launch(dict(base, mode="full"), "0", repo)
     mode = case["mode"]
     hs = case.get("hashseed", "0")
-    if mode == "rerun":
+    if mode == "twice":
+        other, skip = launch(dict(base, mode="twice"), "0", repo), None
+        print("argument object fingerprints before / after run 1 / after run 2:", other.get("args_sha"))
+        if case.get("which", "second") == "second":
+            other = dict(other, boundaries=other.get("boundaries_b", []))
+    elif mode == "rerun":
         other, skip = launch(dict(base, mode="full", perturb=case.get("perturb", 0)), hs, repo), None
     elif mode in ("resume", "save"):
         ck = tempfile.mkdtemp(prefix="c17_replay_ck_", dir="/var/tmp")
